@@ -193,10 +193,17 @@ func triDist(p model3d.Coord3D, t [3]model3d.Coord3D) (float64, model3d.Coord3D)
 	return best, bp
 }
 
+// windingOf maps the name of a re-oriented catalogue variant to the consistently wound triangles of the same
+// surface: containment is the even-odd rule on the surface, whatever way its faces happen to be wound.
+var windingOf = map[string][][3][3]float64{}
+
 func checkMeshSDF(r *ev.Run, nm cat.Named3, n int) {
 	m := nm.Mesh()
 	sdf := model3d.MeshToSDF(m)
 	tris := lat.Tris(m)
+	if w, ok := windingOf[nm.Name]; ok {
+		tris = w
+	}
 	mn, mx := m.Min(), m.Max()
 	ext := mx.Sub(mn).Norm()
 	tol := 1e-9 * (ext + 1)
@@ -773,6 +780,22 @@ func main() {
 				for _, t := range nm.Tris {
 					v.Tris = append(v.Tris, [3]model3d.Coord3D{t[rot], t[(rot+1)%3], t[(rot+2)%3]})
 				}
+				ms = append(ms, v)
+			}
+		}
+		// the same surfaces with every face, and with every third face, wound the other way (an STL of the other
+		// handedness, a mesh before RepairNormals): the sign of the field follows containment, not the winding
+		for _, nm := range cat.Closed3(false) {
+			for _, every := range []int{1, 3} {
+				v := cat.Named3{Name: fmt.Sprintf("%s/flipped-every-%d", nm.Name, every), Genus: nm.Genus, Comps: nm.Comps}
+				for i, t := range nm.Tris {
+					if i%every == 0 {
+						v.Tris = append(v.Tris, [3]model3d.Coord3D{t[1], t[0], t[2]})
+					} else {
+						v.Tris = append(v.Tris, t)
+					}
+				}
+				windingOf[v.Name] = lat.Tris(nm.Mesh())
 				ms = append(ms, v)
 			}
 		}
